@@ -152,8 +152,17 @@ func isNilPointer(x any) bool {
 func derefPtr(t reflect.Type, v reflect.Value) (reflect.Type, reflect.Value, reflect.Kind) {
 	// loop to handle **type instances
 	var k reflect.Kind
+	var seen []reflect.Type
 	for {
 		if isPtr(t) {
+			// a pointer type that refers to itself (type P *P)
+			// never arrives anywhere: stop once it comes round.
+			for i := range seen {
+				if seen[i] == t {
+					return t, v, v.Kind()
+				}
+			}
+			seen = append(seen, t)
 			t = t.Elem()
 			if v.IsValid() {
 				// Elem of a nil pointer is the zero
